@@ -151,12 +151,12 @@ impl BgCounters {
         self.received.fetch_add(1, Ordering::SeqCst);
     }
 
-    /// Called by the worker after a message (or a deadline) has been handled completely
-    pub fn on_processed(&self, deferred_pending: bool, was_message: bool) {
+    /// Called by the worker after a tick (one message or one deadline) has been handled completely,
+    /// successfully or not: every message received so far has been processed (processing is sequential)
+    pub fn on_tick_done(&self, deferred_pending: bool) {
         self.deferred_pending.store(deferred_pending, Ordering::SeqCst);
-        if was_message {
-            self.processed.fetch_add(1, Ordering::SeqCst);
-        }
+        let received = self.received.load(Ordering::SeqCst);
+        self.processed.store(received, Ordering::SeqCst);
     }
 }
 
